@@ -13,6 +13,7 @@ F1 (`counterexample`). What is proved is `evaluated_correctly` under the extra h
 import TzVerif.Model.Rule
 import TzVerif.Spec.Rule
 import TzVerif.Proofs.RuleEval
+import TzVerif.Proofs.IanaRules
 
 namespace TzVerif.C04
 open TzVerif.Model TzVerif.Proofs
@@ -78,6 +79,29 @@ theorem counterexample :
     Spec.startInstant a 2025 ≤ 1771113600 ∧ 1771113600 < Spec.endInstant a 2026 ∧
     Spec.endInstant a 2025 < Spec.startInstant a 2025 ∧ Spec.endInstant a 2026 = Spec.startInstant a 2026 := by
   decide +kernel
+
+/-- hence the full-strength statement is FALSE of the code (this is finding F1, as a theorem):
+    the witness rule is accepted, has the constructor's shape, its instants interleave in every year
+    (decided on the 28-year cycle, lifted by `interleaves_iff_B`), and at 2026-02-15T00:00Z the code
+    answers standard time inside the period [start(2025), end(2026)) of a reverse-order rule. -/
+theorem full_statement_is_false : ¬ C04_full := by
+  intro h
+  let std : LocalTimeType := { utOffset := 0, isDst := false, name := some [65, 65, 65] }
+  let dst : LocalTimeType := { utOffset := 3600, isDst := true, name := some [66, 66, 66] }
+  let a : AlternateTime := { std, dst, dstStart := .mwd 3 1 0, dstStartTime := 0, dstEnd := .julian1 60, dstEndTime := 3600 }
+  have hs : RuleShape a := (ruleShapeB_iff a).mp (by decide)
+  have hi : Spec.Interleaves a := (interleaves_iff_B a hs).mpr (by decide +kernel)
+  have hlook : a.findLocalTimeType 1771113600 = .ok std := by decide +kernel
+  have hnsf : ¬ Spec.StartFirst a := by
+    intro hsf
+    have := hsf 2025
+    revert this
+    decide +kernel
+  have hdst : Spec.IsDst a 1771113600 := by
+    refine Or.inr ⟨hnsf, 2025, ?_, ?_⟩ <;> decide +kernel
+  rcases h a hs hi 1771113600 std hlook with ⟨_, h2⟩ | ⟨h1, _⟩
+  · exact absurd h2 (by decide)
+  · exact h1 hdst
 
 /-- non-vacuity: the EU rule (M3.5.0/1 … M10.5.0/1 UTC) at midsummer 2024 is on daylight time -/
 example :
